@@ -10,6 +10,7 @@ removal and simplification) never change which strings match.
 -/
 import ZoektModel.C27.Lemmas
 import ZoektModel.C27.Printer
+import ZoektModel.C27.TokParser
 import ZoektModel.C27.Escape
 import ZoektModel.C27.EscapeClass
 import ZoektModel.C27.NegClass
@@ -153,6 +154,16 @@ theorem print_derives (env : Env) (isPrint : Nat → Bool) (r : Re) (hw : WFP r)
   obtain ⟨xs, hd, e⟩ := (print_levels env r hw).alt
   exact ⟨printTok r, xs, (render_printTok isPrint r).symm, hd, e⟩
 
+/-- **print → parse, token level, with a deterministic parser**: the recursive-descent precedence parser `parseAlt`
+    (alternation of concatenations of optionally post-fixed atoms/groups; it is a function, so there is exactly one
+    reading) consumes all the printed tokens of a well-formed tree and returns a regexp that matches exactly the same
+    strings as the tree. -/
+theorem print_parse_equiv (env : Env) (r : Re) (hw : WFP r) :
+    ∃ fuel xs, parseAlt fuel (printTok r) = some (xs, []) ∧ Equiv env (.alt xs) r := by
+  obtain ⟨xs, hd, e⟩ := (print_levels env r hw).alt
+  obtain ⟨f, hf⟩ := parseAlt_complete hd
+  exact ⟨f, xs, hf, e⟩
+
 /-- **the inserted `(?:…)` suffice for repetitions**: what the printer puts before `*`, `+`, `?`, `{n,m}` is a single
     atom or group of the grammar, denoting the operand. -/
 theorem printer_parenthesises_operand (env : Env) (sub : Re) (hw : WFP sub) :
@@ -242,6 +253,48 @@ theorem uncapture_prints_no_capture (r : Re) (n : String) : Tok.openCap n ∉ pr
 theorem print_tokens_render (isPrint : Nat → Bool) (r : Re) : render isPrint (printTok r) = printRe isPrint r :=
   render_printTok isPrint r
 
+/-! ### the theorems' shape hypotheses are checked on every tree the real parser produces -/
+
+mutual
+/-- the executable shape check run by the driver on every generated tree implies the hypothesis of the printer theorems -/
+theorem wfPrintB_sound : ∀ r : Re, wfPrintB r = true → WFP r
+  | .lit rs _, h => by
+    simp only [wfPrintB, Bool.and_eq_true, Bool.not_eq_true'] at h
+    simp only [WFP]; intro e; rw [e] at h; simp at h
+  | .cap _ r, h | .star _ r, h | .plus _ r, h | .quest _ r, h | .rep _ _ _ r, h => by
+    simp only [WFP]; exact wfPrintB_sound r (by simpa only [wfPrintB] using h)
+  | .concat rs, h => by simp only [WFP]; exact wfPrintBL_sound rs (by simpa only [wfPrintB] using h)
+  | .alt rs, h => by
+    simp only [wfPrintB, Bool.and_eq_true, Bool.not_eq_true'] at h
+    simp only [WFP]
+    exact ⟨by intro e; rw [e] at h; simp at h, wfPrintBL_sound rs h.2⟩
+  | .noMatch, _ | .emptyMatch, _ | .cls _, _ | .anyNotNL, _ | .any, _ | .beginLine, _ | .endLine, _ | .beginText, _
+  | .endText _, _ | .wordB, _ | .noWordB, _ => by simp [WFP]
+theorem wfPrintBL_sound : ∀ rs : List Re, wfPrintBL rs = true → WFPL rs
+  | [], _ => by simp [WFPL]
+  | r :: rs, h => by
+    simp only [wfPrintBL, Bool.and_eq_true] at h
+    simp only [WFPL]; exact ⟨wfPrintB_sound r h.1, wfPrintBL_sound rs h.2⟩
+end
+
+mutual
+/-- … and the hypothesis of `simplify_equiv` -/
+theorem wfRepB_sound : ∀ r : Re, wfRepB r = true → WFRep r
+  | .rep _ mn mx r, h => by
+    simp only [wfRepB, Bool.and_eq_true, Bool.or_eq_true, beq_iff_eq, decide_eq_true_eq] at h
+    simp only [WFRep]; exact ⟨h.1, wfRepB_sound r h.2⟩
+  | .cap _ r, h | .star _ r, h | .plus _ r, h | .quest _ r, h => by
+    simp only [WFRep]; exact wfRepB_sound r (by simpa only [wfRepB] using h)
+  | .concat rs, h | .alt rs, h => by simp only [WFRep]; exact wfRepBL_sound rs (by simpa only [wfRepB] using h)
+  | .noMatch, _ | .emptyMatch, _ | .lit _ _, _ | .cls _, _ | .anyNotNL, _ | .any, _ | .beginLine, _ | .endLine, _
+  | .beginText, _ | .endText _, _ | .wordB, _ | .noWordB, _ => by simp [WFRep]
+theorem wfRepBL_sound : ∀ rs : List Re, wfRepBL rs = true → WFRepL rs
+  | [], _ => by simp [WFRepL]
+  | r :: rs, h => by
+    simp only [wfRepBL, Bool.and_eq_true] at h
+    simp only [WFRepL]; exact ⟨wfRepB_sound r h.1, wfRepBL_sound rs h.2⟩
+end
+
 /-! ### the executable matcher of the specification is sound for the relation the theorems are about -/
 
 /-- **`matchSpan` (the test `validFindAll` / `checkP` apply to every span an engine reports) implies `Matches`**:
@@ -286,6 +339,10 @@ theorem validFindAll_spans_match (env : Env) (s : Array Nat) (r : Re) :
 example : escape (fun c => c == 46) 0xAD false = ['\\', 'x', 'a', 'd'] ∧
     escape (fun c => c == 46) 0x2028 false = ['\\', 'x', '{', '2', '0', '2', '8', '}'] ∧
     escape (fun c => c == 46) 46 false = ['\\', '.'] := by decide
+/-- the parser on the printout of `(a|b)*c` -/
+example : parseAlt 10 (printTok (.concat [.star false (.alt [.lit [97] false, .lit [98] false]), .lit [99] false])) =
+    some ([.concat [.star false (.alt [.concat [.lit [97] false], .concat [.lit [98] false]]), .lit [99] false]], []) := by
+  rfl
 /-- `(a|b)*c`: the printer groups the alternation under the star, and the derivation exists -/
 example : printTok (.concat [.star false (.alt [.lit [97] false, .lit [98] false]), .lit [99] false]) =
     [.openNC, .atom (.litRune 97), .bar, .atom (.litRune 98), .close, .post (.star false), .atom (.litRune 99)] := by rfl
